@@ -3,6 +3,7 @@ package harness
 import (
 	"encoding/hex"
 	"fmt"
+	"github.com/tharsis/ethermint/x/evm/statedb"
 	"math/big"
 	"strings"
 	"testing"
@@ -137,6 +138,9 @@ func (w *ICSWorld) erc20Of(denom string) (common.Address, bool) {
 	return p.GetERC20Contract(), true
 }
 
+// natUnit: one model unit of this chain's own coin
+const natUnit = 1000
+
 // icsUnit: one model unit of a transferred amount is 2^64+2 base units (amounts beyond every machine-integer bound; even,
 // so that the token that passes on only half of what it is given deals in half units)
 var icsUnit = new(big.Int).Add(new(big.Int).Lsh(big.NewInt(1), 64), big.NewInt(2))
@@ -166,7 +170,15 @@ func (w *ICSWorld) viewBalBig(contract, who common.Address) *big.Int {
 }
 
 // viewBal: a token balance in model units
+// dead: the contract has no code (it destroyed itself): its balances are gone with it
+func (w *ICSWorld) dead(contract common.Address) bool {
+	return len(w.appB().EvmKeeper.GetCode(w.B.GetContext(), common.BytesToHash(w.appB().EvmKeeper.GetAccountOrEmpty(w.B.GetContext(), contract).CodeHash))) == 0
+}
+
 func (w *ICSWorld) viewBal(contract, who common.Address) int64 {
+	if w.dead(contract) {
+		return 0
+	}
 	return icsUnits(w.viewBalBig(contract, who))
 }
 
@@ -182,12 +194,19 @@ func (w *ICSWorld) project(denoms map[string]string) M {
 	}
 	st := M{"enabled": a.AggregateKeeper.GetParams(ctx).EnableAggregate, "xreg": a.AggregateKeeper.IsERC20Registered(ctx, w.X) || xbad, "xbad": xbad,
 		"mx": func() int64 {
+			if w.dead(xc) {
+				return 0
+			}
 			if xbad {
 				// the misbehaving token halves what it is given: whole units, rounded down
 				return new(big.Int).Quo(w.viewBalBig(xc, common.BytesToAddress(mod)), icsUnit).Int64()
 			}
 			return w.viewBal(xc, common.BytesToAddress(mod))
 		}()}
+	// this chain's own coin: what is escrowed on the channel to A, and the receiver's balance (units of natUnit)
+	escAddr := transfertypes.GetEscrowAddress(w.Path.EndpointB.ChannelConfig.PortID, w.Path.EndpointB.ChannelID)
+	st["nesc"] = a.BankKeeper.GetBalance(ctx, escAddr, sdk.DefaultBondDenom).Amount.Quo(sdk.NewInt(natUnit)).Int64()
+	st["nbal"] = a.BankKeeper.GetBalance(ctx, w.userB(), sdk.DefaultBondDenom).Amount.Quo(sdk.NewInt(natUnit)).Int64()
 	for abs, d := range denoms {
 		e := M{"vbal": icsUnits(a.BankKeeper.GetBalance(ctx, w.userB(), d).Amount.BigInt()), "esc": icsUnits(a.BankKeeper.GetBalance(ctx, mod, d).Amount.BigInt()),
 			"sup": icsUnits(a.BankKeeper.GetSupply(ctx, d).Amount.BigInt()), "registered": false, "pairon": false, "tok": 0, "ext": false, "out": 0, "committed": false}
@@ -225,13 +244,33 @@ func driveICS20(t *testing.T, in, out string, seed int64) {
 			a := w.appB()
 			w.fixHeaders()
 			switch act {
-			case "Recv":
-				base := map[string]string{"va": "acoin", "vb": "bcoin", "vc": "acoin"}[str(st["denom"])]
+			case "SendNat":
+				w.sendNat(line, st)
+			case "DestroyExt":
+				// the registered external token contract destroys itself (the repository's tests reach this state the same way)
+				target := w.X
+				if a.AggregateKeeper.IsERC20Registered(w.B.GetContext(), w.Y) {
+					target = w.Y
+				}
+				db := statedb.New(w.B.GetContext(), a.EvmKeeper, statedb.NewEmptyTxConfig(common.BytesToHash(w.B.GetContext().HeaderHash().Bytes())))
+				db.Suicide(target)
+				must(db.Commit())
+				line["res"], line["sig"] = "ok", "DestroyExt"
+			case "Recv", "RecvNat":
+				if act == "RecvNat" {
+					st["denom"] = "nat"
+				}
+				// nat: this chain's own coin coming back - the denomination carries the sender's port and channel
+				base := map[string]string{"va": "acoin", "vb": "bcoin", "vc": "acoin",
+					"nat": transfertypes.GetPrefixedDenom(w.Path.EndpointA.ChannelConfig.PortID, w.Path.EndpointA.ChannelID, sdk.DefaultBondDenom)}[str(st["denom"])]
 				path, sender, seqp := w.Path, w.A, &w.seq
 				if str(st["denom"]) == "vc" {
 					path, sender, seqp = w.PathC, w.C, &w.seqC
 				}
 				amount := map[string]string{"1": icsAmount(1).String(), "2": icsAmount(2).String(), "zero": "0", "garbage": "1x", "neg": "-3"}[str(st["amt"])]
+				if act == "RecvNat" {
+					amount = map[string]string{"1": fmt.Sprint(natUnit), "2": fmt.Sprint(2 * natUnit), "zero": "0", "garbage": "1x", "neg": "-3"}[str(st["amt"])]
+				}
 				recv := w.userB().String()
 				switch str(st["recv"]) {
 				case "invalid":
@@ -279,7 +318,7 @@ func driveICS20(t *testing.T, in, out string, seed int64) {
 					stored = hex.EncodeToString(bz)
 				}
 				line["ack"] = M{"stored": stored, "wrapped": wrapped, "same": stored == wrapped}
-				line["sig"] = fmt.Sprintf("Recv/%s/%s/%s", str(st["denom"]), str(st["amt"]), str(st["recv"]))
+				line["sig"] = fmt.Sprintf("%s/%s/%s/%s", act, str(st["denom"]), str(st["amt"]), str(st["recv"]))
 			case "Register":
 				d := denoms[str(st["denom"])]
 				md := banktypes.Metadata{Description: "ibc voucher", Base: d, Display: d, Name: "channel-0 " + str(st["denom"]), Symbol: "ibc" + strings.ToUpper(str(st["denom"])),
@@ -377,6 +416,31 @@ func (w *ICSWorld) pathOf(abs string) *ibctesting.Path {
 		return w.PathC
 	}
 	return w.Path
+}
+
+// sendNat: the holder sends some of this chain's own coin to chain A (escrowed here).  The packet is not relayed: what
+// comes back later are packets the counterparty commits, whatever it holds (the transfer application on this chain
+// only looks at its own escrow).
+func (w *ICSWorld) sendNat(line, st M) {
+	line["sig"] = "SendNat/" + str(st["amt"])
+	n := map[string]int64{"1": 1, "2": 2}[str(st["amt"])]
+	coin := sdk.NewCoin(sdk.DefaultBondDenom, sdk.NewInt(n*natUnit))
+	switch str(st["amt"]) {
+	case "neg":
+		coin = sdk.Coin{Denom: sdk.DefaultBondDenom, Amount: sdk.NewInt(-3)}
+	case "garbage":
+		coin = sdk.Coin{Denom: "1x", Amount: sdk.NewInt(1)}
+	}
+	cp := w.Path.EndpointA.Chain
+	msg := transfertypes.NewMsgTransfer(w.Path.EndpointB.ChannelConfig.PortID, w.Path.EndpointB.ChannelID, coin, w.userB().String(),
+		cp.SenderAccount.GetAddress().String(), clienttypes.NewHeight(clienttypes.ParseChainID(cp.ChainID), 100000), 0)
+	res, err := w.deliverB(msg)
+	if err != nil {
+		line["res"], line["msg"] = "err", clip(err.Error())
+		return
+	}
+	_ = res
+	line["res"] = "ok"
 }
 
 // sendBack: the holder sends vouchers back to where they came from with a MsgTransfer on chain B.
